@@ -30,6 +30,13 @@ CHECKS = {
         "The fused index's own table is audited (signed combination, extent sizes, direction of the first axis, sub-indices) and the fused blocks must equal, element for "
         "element, the layout that table prescribes; both strategies / cache settings must agree exactly; unfusing must restore every block bit for bit (fermionic: the R-graded transpose).",
    note="Trusted: numpy transpose/reshape on tagged blocks; the R-graded transpose for the fermionic round trip. Fermionic concat strategy is not reachable through the public fuse and is not covered."),
+ "C07": dict(engine="E-enum", design_ref="DESIGN.md 5 C07",
+   technique="exhaustive enumeration of shapes x merge/drop targets for the axis-matching routine against a plan interpreter, and of real arrays x targets x the trip back with exact integer tags",
+   text="(a) calc_reshape_args is run on every shape with <=5 axes over sizes {1,2,3,4,6} and every target reachable by merging adjacent axes and dropping size-one axes, and on the "
+        "reverse trip with the sub-sizes the forward plan produces; a plan interpreter executes (unfuse, fuse groupings, expand) on the abstract shape and must land exactly on the target "
+        "with contiguous, disjoint, in-range groups. (b) Real abelian and fermionic arrays (axis sizes 1-3, size-one axes with zero and non-zero charge, a pre-fused variant, sparsity patterns) "
+        "are reshaped to every such target and back: rank, no axis larger than requested, same multiset of non-zero magnitudes, charge, exact restoration of blocks and index tables, identity on the current shape.",
+   note="Trusted: numpy; tags make content comparison exact. Known finding: all-size-one array -> () raises IndexError (listed in known_findings.json)."),
 }
 
 _ALL = ["C%02d" % i for i in range(1, 21)]
